@@ -31,6 +31,9 @@ type Driver struct {
 	Consumed  int      // how many datagrams of the script were read by the last call
 	Delivered [][]byte // the buffers handed to the library (so that a test can scribble over them later)
 	SendErr   error    // if set, every send fails with this error
+	// Auto, when set, answers every request by itself (the script is not used): for checks in which several goroutines share
+	// one client, where a script could not tell whose reply is whose
+	Auto func(request []byte) []byte
 
 	listenCB func([]byte)
 	signal   chan any
@@ -99,6 +102,12 @@ func (d *Driver) BroadcastTo(addr *net.UDPAddr, request []byte, callback func([]
 	if len(request) > 1 && request[1] == 0x96 {
 		return nil, nil
 	}
+	if d.Auto != nil {
+		if b := d.Auto(request); b != nil && callback(b) {
+			return b, nil
+		}
+		return nil, ErrTimeout
+	}
 	for {
 		b, ok := d.next()
 		if !ok {
@@ -116,6 +125,12 @@ func (d *Driver) direct(method, addr string, request []byte) ([]byte, error) {
 	}
 	if len(request) > 1 && request[1] == 0x96 {
 		return nil, nil
+	}
+	if d.Auto != nil {
+		if b := d.Auto(request); b != nil {
+			return b, nil
+		}
+		return nil, ErrTimeout
 	}
 	b, ok := d.next()
 	if !ok {
